@@ -15,6 +15,14 @@
 #include <sys/wait.h>
 #include <sys/stat.h>
 
+/* coverage builds (./check --cov): workers leave through _exit, so the counters are written explicitly */
+#ifdef VRT_GCOV
+extern void __gcov_dump(void);
+#define VRT_GCOV_DUMP() __gcov_dump()
+#else
+#define VRT_GCOV_DUMP() ((void)0)
+#endif
+
 void *__real_malloc(size_t);
 void *__real_calloc(size_t, size_t);
 void *__real_realloc(void *, size_t);
@@ -1000,7 +1008,7 @@ int vrt_main(int argc, char **argv, const struct vrt_harness *h)
         int st;
         fflush(NULL);
         pid = fork();
-        if (pid == 0) { worker_main(0, only_case); _exit(0); }
+        if (pid == 0) { worker_main(0, only_case); VRT_GCOV_DUMP(); _exit(0); }
         waitpid(pid, &st, 0);
         if (!G->slot[0].finished) {
             fprintf(stderr, "replay: worker died (status 0x%x) in entry %s\n", st,
@@ -1016,7 +1024,7 @@ int vrt_main(int argc, char **argv, const struct vrt_harness *h)
     for (i = 0; i < W; i++) {
         pid_t pid = fork();
         if (pid < 0) { perror("fork"); return 2; }
-        if (pid == 0) { worker_main(i, -1); _exit(0); }
+        if (pid == 0) { worker_main(i, -1); VRT_GCOV_DUMP(); _exit(0); }
         G->slot[i].pid = pid;
         alive++;
     }
@@ -1074,7 +1082,7 @@ int vrt_main(int argc, char **argv, const struct vrt_harness *h)
                 G->slot[i].gen++; G->slot[i].cur_case = -1; G->slot[i].finished = 0;
                 fflush(NULL);
                 np = fork();
-                if (np == 0) { worker_main(i, -1); _exit(0); }
+                if (np == 0) { worker_main(i, -1); VRT_GCOV_DUMP(); _exit(0); }
                 if (np > 0) { G->slot[i].pid = np; alive++; }
             }
         } else if (!G->slot[i].finished || WIFSIGNALED(st) || (WIFEXITED(st) && WEXITSTATUS(st) != 0)) {
@@ -1115,7 +1123,7 @@ int vrt_main(int argc, char **argv, const struct vrt_harness *h)
                 s->finished = 0;
                 fflush(NULL);
                 np = fork();
-                if (np == 0) { worker_main(i, -1); _exit(0); }
+                if (np == 0) { worker_main(i, -1); VRT_GCOV_DUMP(); _exit(0); }
                 if (np > 0) { s->pid = np; alive++; }
             }
         }
